@@ -228,14 +228,19 @@ pub fn run_calls(fsts: &[&[u8]], l: usize) -> Result<(u64, [i64; 2]), String> {
             // what stays live after the call (a bounded pool or scratch buffer kept for
             // reuse would be within the property) must be bounded like the peak and must
             // not grow when the same call is repeated
+            // (a pool may take a few calls to fill: eight warm-up calls, then four that
+            // must leave the live heap exactly where it was)
+            for _ in 0..8 {
+                acc += f();
+            }
             let x1 = alloc::live();
             if x1 - x0 > bound {
-                return Err(format!("{}: {} bytes still live after the call (bound {})", what, x1 - x0, bound));
+                return Err(format!("{}: {} bytes still live after nine calls (bound {})", what, x1 - x0, bound));
             }
-            for rep in 0..3 {
+            for rep in 0..4 {
                 acc += f();
                 if alloc::live() != x1 {
-                    return Err(format!("{}: the live heap grows by {} bytes with repetition {} of the same call ({} bytes were live after the first one)", what, alloc::live() - x1, rep + 2, x1 - x0));
+                    return Err(format!("{}: the live heap still changes by {} bytes with repetition {} of the same call ({} bytes were live after the ninth)", what, alloc::live() - x1, rep + 10, x1 - x0));
                 }
             }
             peaks[slot] = peaks[slot].max(extra);
@@ -336,7 +341,7 @@ pub fn run_calls(fsts: &[&[u8]], l: usize) -> Result<(u64, [i64; 2]), String> {
             }
         })?;
         std::hint::black_box(acc);
-        Ok((20 * 4, peaks))
+        Ok((20 * 13, peaks))
     })
     .and_then(|x| x)
 }
@@ -520,7 +525,7 @@ pub fn replay(case: &Value) -> Result<String, String> {
 pub fn plan(tier: Tier) -> Plan {
     let mut p = Plan::new("C14", "exploration");
     let thorough = tier.thorough();
-    p.rule = "counting allocator, per-thread. (1) exhaustive in small scopes: for every FST of all subsets of U_ab3 and U_raw2 (values 3i+1), of the fan-out families and of the 256-byte label family: (a) Fst::new/Map::new/Set::new over borrowed bytes and every get/contains_key/contains of the probe closure perform ZERO allocations (allocation count), and so does get_key_into for every value found, its neighbours and 0..7 into a caller buffer of sufficient capacity; (b) stream(), every range (all kind pairs x bound keys of length <= 2; large sets <= 1) and three automaton searches: live heap after EVERY next() <= heap before construction + 4096 + 256*(L+2) + 4*(L+16); (c) union/intersection/difference/symmetric_difference over k = 2..4 FST-backed streams (the FST, its even- and odd-indexed halves, itself): live heap after every next() <= before + 256 + k*(stream bound + 2*max(L,64) + 512). (2) finite ladder (not exhaustive): FSTs of N = 1e4, 1e5 (thorough 1e6) 8-byte keys: full stream/range/search, k = 2..8 way operations over partially overlapping FSTs, and operations over 2-4 identical and over disjoint FSTs (long runs in which nothing is emitted): max extra heap identical (+-256 B) for all N; the same on a wide-node ladder (3-byte keys: root of up to 256 transitions, N/40 distinct non-root nodes of 64 and 40 transitions; N = 10240, 102400, 655360 - the last one a dense root in a file > 64 KiB), with zero-allocation open/lookups on each; on both ladders also is_subset / is_superset / is_disjoint (raw and Set, also against a range stream) and the Debug formatting of Set and Map into a non-allocating sink, traversals abandoned after 1000 items and two streams of one FST advanced alternately: bounded range scans and searches (run to the end, abandoned, never advanced); each call is repeated four times: peak extra heap bounded and identical for all N, what stays live after a call bounded likewise and NOT growing with repetition (a leak per traversal is growth with use). (3) history independence: peak extra heap of union / intersection / stream / range / search / predicates over 16 tiny sets on a fresh thread, before and after this thread and another one ran them over FSTs with a 65 536-byte key, differs by <= 4 KiB. non-trivial = traversals yielding >= 2 items".into();
+    p.rule = "counting allocator, per-thread. (1) exhaustive in small scopes: for every FST of all subsets of U_ab3 and U_raw2 (values 3i+1), of the fan-out families and of the 256-byte label family: (a) Fst::new/Map::new/Set::new over borrowed bytes and every get/contains_key/contains of the probe closure perform ZERO allocations (allocation count), and so does get_key_into for every value found, its neighbours and 0..7 into a caller buffer of sufficient capacity; (b) stream(), every range (all kind pairs x bound keys of length <= 2; large sets <= 1) and three automaton searches: live heap after EVERY next() <= heap before construction + 4096 + 256*(L+2) + 4*(L+16); (c) union/intersection/difference/symmetric_difference over k = 2..4 FST-backed streams (the FST, its even- and odd-indexed halves, itself): live heap after every next() <= before + 256 + k*(stream bound + 2*max(L,64) + 512). (2) finite ladder (not exhaustive): FSTs of N = 1e4, 1e5 (thorough 1e6) 8-byte keys: full stream/range/search, k = 2..8 way operations over partially overlapping FSTs, and operations over 2-4 identical and over disjoint FSTs (long runs in which nothing is emitted): max extra heap identical (+-256 B) for all N; the same on a wide-node ladder (3-byte keys: root of up to 256 transitions, N/40 distinct non-root nodes of 64 and 40 transitions; N = 10240, 102400, 655360 - the last one a dense root in a file > 64 KiB), with zero-allocation open/lookups on each; on both ladders also is_subset / is_superset / is_disjoint (raw and Set, also against a range stream) and the Debug formatting of Set and Map into a non-allocating sink, traversals abandoned after 1000 items and two streams of one FST advanced alternately: bounded range scans and searches (run to the end, abandoned, never advanced); each call is repeated (8 warm-up calls, then 4 measured ones): peak extra heap bounded and identical for all N, what stays live after a call bounded likewise and NOT growing with repetition (a leak per traversal is growth with use). (3) history independence: peak extra heap of union / intersection / stream / range / search / predicates over 16 tiny sets on a fresh thread, before and after this thread and another one ran them over FSTs with a 65 536-byte key, differs by <= 4 KiB. non-trivial = traversals yielding >= 2 items".into();
     p.assumptions = vec![
         "'for all N' beyond the ladder is not decided; transient per-item allocations that are freed again do not violate the property as stated".into(),
         "memory of user-supplied streams is outside the property".into(),
